@@ -104,6 +104,17 @@ func (a *application) start(mode gen.ApplicationMode, options gen.ApplicationOpt
 	return nil
 }
 
+// shutdownMember sends the shutdown signal in the name of the member's parent
+// (the core of the node that started the application, which may be another
+// node): an exit signal of the parent cannot be trapped by the member.
+func (a *application) shutdownMember(pid gen.PID) {
+	from := a.node.corePID
+	if v, found := a.node.processes.Load(pid); found {
+		from = v.(*process).parent
+	}
+	a.node.RouteSendExit(from, pid, gen.TerminateReasonShutdown)
+}
+
 func (a *application) stop(force bool, timeout time.Duration) error {
 	if swapped := atomic.CompareAndSwapInt32(&a.state,
 		int32(gen.ApplicationStateRunning),
@@ -139,7 +150,7 @@ func (a *application) stop(force bool, timeout time.Duration) error {
 		if force {
 			a.node.Kill(pid)
 		} else {
-			a.node.SendExit(pid, gen.TerminateReasonShutdown)
+			a.shutdownMember(pid)
 		}
 	}
 
@@ -185,7 +196,7 @@ func (a *application) terminate(pid gen.PID, reason error) {
 		a.node.Log().Info("application %s (%s) will be stopped due to termination of %s with reason: %s", a.spec.Name, a.mode, pid, reason)
 		a.reason = reason
 		a.group.Range(func(pid gen.PID, _ bool) bool {
-			a.node.SendExit(pid, gen.TerminateReasonShutdown)
+			a.shutdownMember(pid)
 			return true
 		})
 	case gen.ApplicationModeTransient:
@@ -206,7 +217,7 @@ func (a *application) terminate(pid gen.PID, reason error) {
 		}
 		a.reason = reason
 		a.group.Range(func(pid gen.PID, _ bool) bool {
-			a.node.SendExit(pid, gen.TerminateReasonShutdown)
+			a.shutdownMember(pid)
 			return true
 		})
 	default:
